@@ -7,13 +7,13 @@ package c16
 import (
 	"bytes"
 	"crypto/tls"
-	"os"
-	"runtime"
 	"encoding/json"
 	"fmt"
 	"io"
 	"net"
 	"net/http"
+	"os"
+	"runtime"
 	"sort"
 	"strconv"
 	"strings"
@@ -112,7 +112,7 @@ type session struct {
 	hist     []Op
 	findings []finding
 	closed   bool
-	broken   string // non-empty: the harness could not reach quiescence; the rig must be dropped
+	broken   string       // non-empty: the harness could not reach quiescence; the rig must be dropped
 	httpc    *http.Client // to HTTP listeners: one connection per request
 	tsc      *http.Client // to the teamserver's own TLS port
 }
@@ -841,7 +841,7 @@ func (s *session) checkViews(fresh bool) {
 	// (2) persisted rows
 	db, dups, err := dbNames(s.r.Dir + "/data/teamserver.db")
 	if err != nil {
-		inconclusive(s.c, "TS_Listeners could not be read: " + err.Error())
+		inconclusive(s.c, "TS_Listeners could not be read: "+err.Error())
 	} else {
 		if len(dups) > 0 {
 			s.find("dup-row", fmt.Sprintf("TS_Listeners holds several rows for %v", dups), nil)
@@ -900,7 +900,7 @@ func (s *session) checkViews(fresh bool) {
 		st, body := s.postTS(ep)
 		routed := !(st == refSt && body == refBody)
 		if st == 0 || refSt == 0 {
-			inconclusive(s.c, "teamserver port did not answer an endpoint probe: " + body + refBody)
+			inconclusive(s.c, "teamserver port did not answer an endpoint probe: "+body+refBody)
 			continue
 		}
 		s.c.Observe("endpoint-probes", 1)
